@@ -176,6 +176,8 @@ def floatOfText (s : Str) : Option Num :=
     | none => some ⟨true, if neg then -1 else 1, 0⟩
     | some (m, e) =>
       let (a, b) := ratioOfBinary m e
+      -- `-0.0` is represented as `0/2` (numerically zero, distinguishable for `repr`)
+      if neg ∧ a = 0 then some ⟨true, 0, 2⟩ else
       some ⟨true, if neg then -(a : Int) else a, b⟩
 
 /-- `int(float(text))`: `none` = `ValueError`, `some none` = `OverflowError` (inf). -/
@@ -189,5 +191,92 @@ def intOfText (s : Str) : Option Int :=
   match s with
   | '-' :: r => if allDigits r then some (-(digitsToNat r : Int)) else none
   | _ => if allDigits s then some (digitsToNat s : Int) else none
+
+end JPV.Py
+
+namespace JPV.Py
+
+/-! ### `repr(float)`
+
+Shortest decimal that reads back to the same double, laid out as CPython's
+`float_repr` does (`repr` style: exponent form when the decimal point position
+is > 16 or < -3).  *Modelled*, not verified; exercised by the `py.repr` op. -/
+
+def natDigits (n : Nat) : List Char := (toString n).toList
+
+/-- `n / d` rounded half-even to an integer -/
+def roundHalfEven (n d : Nat) : Nat :=
+  let q := n / d
+  let r := n % d
+  if 2 * r > d ∨ (2 * r = d ∧ q % 2 = 1) then q + 1 else q
+
+/-- number of decimal digits of the integer part position: the `e` with `10^(e-1) ≤ n/d < 10^e`
+(for `n > 0`), found by search from an estimate -/
+def decimalExponent (n d : Nat) : Int :=
+  -- estimate from bit lengths, then correct
+  let est : Int := ((Nat.log2 n : Int) - (Nat.log2 d : Int)) * 30103 / 100000
+  let ge (e : Int) : Bool :=  -- n/d ≥ 10^e
+    if e ≥ 0 then n ≥ d * 10 ^ e.toNat else n * 10 ^ (-e).toNat ≥ d
+  let rec up (fuel : Nat) (e : Int) : Int :=
+    match fuel with
+    | 0 => e
+    | f + 1 => if ge e then up f (e + 1) else e
+  let rec down (fuel : Nat) (e : Int) : Int :=
+    match fuel with
+    | 0 => e
+    | f + 1 => if ge (e - 1) then e else down f (e - 1)
+  down 8 (up 8 (est - 2))
+
+/-- the k most significant decimal digits of `n/d` (rounded half-even) and the
+decimal point position `decpt` such that value ≈ 0.DIGITS × 10^decpt -/
+def toDigits (n d : Nat) (k : Nat) : Nat × Int :=
+  let e := decimalExponent n d         -- 10^(e-1) ≤ n/d < 10^e
+  let sh : Int := (k : Int) - e        -- scale by 10^sh
+  let m := if sh ≥ 0 then roundHalfEven (n * 10 ^ sh.toNat) d else roundHalfEven n (d * 10 ^ (-sh).toNat)
+  if m ≥ 10 ^ k then (m / 10, e + 1) else (m, e)
+
+def stripTrailingZeros (ds : List Char) : List Char :=
+  (ds.reverse.dropWhile (· = '0')).reverse
+
+/-- `repr(x)` for a finite non-negative double given exactly as `n / d` -/
+def reprPos (n d : Nat) : Str :=
+  if n = 0 then "0.0".toList else
+  let target := roundBinary64 n d
+  let rec find (fuel : Nat) (k : Nat) : Nat × Int :=
+    match fuel with
+    | 0 => toDigits n d 17
+    | f + 1 =>
+      let (m, e) := toDigits n d k
+      let back := if (e - (k : Int)) ≥ 0 then roundBinary64 (m * 10 ^ (e - k).toNat) 1
+                  else roundBinary64 m (10 ^ ((k : Int) - e).toNat)
+      if back = target ∨ k ≥ 17 then (m, e) else find f (k + 1)
+  let (m, decpt) := find 17 1
+  let ds := stripTrailingZeros (natDigits m)
+  let ds := if ds.isEmpty then ['0'] else ds
+  let nd : Int := ds.length
+  if decpt > 16 ∨ decpt < -3 then
+    -- exponent form d.ddde±XX
+    let mant := match ds with
+      | [c] => [c]
+      | c :: rest => c :: '.' :: rest
+      | [] => ['0']
+    let ex := decpt - 1
+    let exs := natDigits ex.natAbs
+    let exs := if exs.length < 2 then '0' :: exs else exs
+    mant ++ ['e', if ex < 0 then '-' else '+'] ++ exs
+  else if decpt ≤ 0 then
+    "0.".toList ++ List.replicate (-decpt).toNat '0' ++ ds
+  else if nd ≤ decpt then
+    ds ++ List.replicate (decpt - nd).toNat '0' ++ ".0".toList
+  else
+    ds.take decpt.toNat ++ ['.'] ++ ds.drop decpt.toNat
+
+/-- `repr(x)` for a Python float given as a `Num` (`-0.0` cannot be told from `0.0`
+in this representation: see `Impl.Serialize`) -/
+def reprFloat (x : Num) : Str :=
+  if x.d = 0 then (if x.n < 0 then "-inf".toList else "inf".toList)
+  else if x.n = 0 ∧ x.d = 2 then "-0.0".toList
+  else if x.n < 0 then '-' :: reprPos x.n.natAbs x.d
+  else reprPos x.n.natAbs x.d
 
 end JPV.Py
